@@ -325,7 +325,14 @@ def scan_forbidden():
 
 def proof_obligations(ctx):
     mod = ctx.mod
-    rc, log = build()
+    # build only what this property needs (its Props and Run files and their dependencies), so that
+    # a broken file of another property cannot mask or fake a result here; setup.sh builds everything
+    targets = ["theories/" + m.split(".", 1)[1].replace(".", "/") + ".vo" for m in mod.THEOREMS]
+    for extra in getattr(mod, "RUN_MODULES", ["Run.%sRun" % mod.PROP]):
+        f = "theories/" + extra.replace(".", "/") + ".v"
+        if os.path.exists(os.path.join(COQ, f)):
+            targets.append(f + "o")
+    rc, log = build(only=targets)
     if rc != 0:
         ctx.proof_failures.append({"what": "Coq development does not build", "log": log[-3000:]})
     hits = scan_forbidden()
